@@ -222,6 +222,8 @@ def _mode_table(ctx, P):
                     bad = bad or "a core dimension with several chunks is applied with dask='parallelized' (xarray refuses chunked core dimensions)"
                 if funcname == "cumsum" and kw.get("map_overlap"):
                     bad = bad or "cumsum is mapped chunk-wise with map_overlap (a running sum cannot be formed from a fixed overlap)"
+                if not chunked and kw.get("map_overlap"):
+                    bad = bad or "an axis whose core dimension is not chunked is mapped with map_overlap (a decision made for an earlier axis is carried over): inner/outer shifts along it are then refused although they are fine"
                 if lazy is False and kw.get("map_overlap"):
                     bad = bad or "in-memory data is sent through dask.map_overlap"
                 if chunked and funcname != "cumsum" and not kw.get("map_overlap"):
